@@ -278,6 +278,12 @@ func chainLeafConfusion(served []*genCert, addr []hashSpec) bool {
 	return !callVerifier(raws[:1], list).accepted && callVerifier(raws, list).accepted
 }
 
+func raise(r *run.R, sig, caseID, msg string, detail any) {
+	if sigs.first(r, sig) {
+		r.Violation(sig, caseID, msg, detail)
+	}
+}
+
 type dialCase struct {
 	name    string
 	addr    []hashSpec // certhashes of the dialed address
@@ -355,15 +361,15 @@ func dialCases(r *run.R) {
 			if chainLeafConfusion(served, dc.addr) {
 				sig = "verify:chain-leaf-is-last-not-first"
 			}
-			r.Violation(sig, caseID, "dial completed although the SHA-256 of the served certificate is not in the dialed address", detail)
+			raise(r, sig, caseID, "dial completed although the SHA-256 of the served certificate is not in the dialed address", detail)
 		case completed && rule != "":
 			sig := "dial:completed-invalid-certificate:" + rule
 			if chainLeafConfusion(served, dc.addr) {
 				sig = "verify:chain-leaf-is-last-not-first"
 			}
-			r.Violation(sig, caseID, "dial completed although the served certificate breaks rule "+rule, detail)
+			raise(r, sig, caseID, "dial completed although the served certificate breaks rule "+rule, detail)
 		case completed && len(unconfirmed) > 0:
-			r.Violation("dial:completed-with-unconfirmed-hash", caseID, fmt.Sprintf("dial completed although the server did not confirm %v of the dialed address", unconfirmed), detail)
+			raise(r, "dial:completed-with-unconfirmed-hash", caseID, fmt.Sprintf("dial completed although the server did not confirm %v of the dialed address", unconfirmed), detail)
 		case completed:
 			r.Count("dial_completed_allowed", 1)
 			r.Nontrivial(caseID)
@@ -411,7 +417,7 @@ func dialCases(r *run.R) {
 	for rep := 0; rep < reps; rep++ {
 		for _, dc := range cases {
 			caseID := fmt.Sprintf("dial/scripted/%s/%d", dc.name, rep)
-			if !r.Want(caseID) || r.TooMany() {
+			if !r.Want(caseID) || r.TooMany() || labelsStale(r, now) {
 				continue
 			}
 			var cf [][]byte
@@ -454,7 +460,7 @@ func dialCases(r *run.R) {
 	}
 	for _, b := range bad {
 		caseID := "dial/scripted-bad/" + b.name
-		if !r.Want(caseID) || r.TooMany() {
+		if !r.Want(caseID) || r.TooMany() || labelsStale(r, now) {
 			continue
 		}
 		var raws [][]byte
@@ -491,12 +497,12 @@ func dialCases(r *run.R) {
 	realListenerCases(r, d, now)
 }
 
-// realListenerCases: the real listener as the server. Its certificates and confirmations come from the
-// cert manager; the ground truth is taken from the listener's own address (current, next) and — for
-// the certificate served — from determinism, which the manager part checks.
+// realListenerCases: the real listener as the server. Ground truth: the certificate it serves is fetched
+// with an independent plain QUIC/TLS probe; what a freshly started listener confirms are the hashes of
+// its own listen address (a bogus hash is confirmed by no honest server).
 func realListenerCases(r *run.R, d *dialer, now time.Time) {
 	n := r.Pick(2, 12)
-	for i := 0; i < n && !r.TooMany(); i++ {
+	for i := 0; i < n && !r.TooMany() && !labelsStale(r, now); i++ {
 		rng := r.Rand(8, uint64(i))
 		kt := []int{ktEd25519, ktSecp256k1, ktECDSA, ktEd25519}[i%4]
 		key, err := hostKey(rng, kt)
@@ -549,7 +555,7 @@ func realListenerCases(r *run.R, d *dialer, now time.Time) {
 		}
 		own := specsOf(ln.Multiaddr())
 		base := stripHashes(ln.Multiaddr())
-		if len(own) != 2 {
+		if len(own) < 2 {
 			r.Violation("advertise:listener-address-without-two-hashes", fmt.Sprintf("dial/real/%d", i), "listener address does not carry two certhashes: "+ln.Multiaddr().String(), nil)
 			stop()
 			continue
@@ -557,7 +563,7 @@ func realListenerCases(r *run.R, d *dialer, now time.Time) {
 		// which certificate is served: fetched with a plain QUIC/TLS probe that accepts anything
 		chainRaw, err := fetchServedChain(base)
 		if err != nil || len(chainRaw) == 0 {
-			r.Inconclusive(fmt.Sprintf("dial/real/%d", i), fmt.Sprintf("probe could not fetch the served certificate: %v", err))
+			r.Count("dial_real_skipped_probe_failed", 1) // load; the required counters keep the part from being vacuous
 			stop()
 			continue
 		}
@@ -569,11 +575,18 @@ func realListenerCases(r *run.R, d *dialer, now time.Time) {
 			continue
 		}
 		bogus := sha([]byte("foobar"))
+		cur := sha(servedRaw)
+		var notServed []hashSpec
+		for _, h := range own {
+			if !containsSpec([]hashSpec{cur}, h) {
+				notServed = append(notServed, h)
+			}
+		}
 		for _, dc := range []dialCase{
 			{"exact", own, own, false},
-			{"subset-current", own[:1], own, false},
-			{"subset-next", own[1:], own, false},
-			{"genuine+bogus", []hashSpec{own[0], bogus}, own, false},
+			{"subset-current", []hashSpec{cur}, own, false},
+			{"subset-next", notServed, own, false},
+			{"genuine+bogus", []hashSpec{cur, bogus}, own, false},
 			{"only-bogus", []hashSpec{bogus}, own, false},
 		} {
 			caseID := fmt.Sprintf("dial/real/%s/%s/%d", ktNames[kt], dc.name, i)
@@ -683,12 +696,7 @@ func labelFromDER(raw []byte, now time.Time) (*genCert, bool) {
 	g.kind.rsaKey = c.PublicKeyAlgorithm == x509.RSA
 	g.lifetimeOK = c.NotAfter.Sub(c.NotBefore) <= maxLifetime
 	g.currentlyValid = !now.Before(c.NotBefore) && !now.After(c.NotAfter)
-	if !g.currentlyValid {
-		g.window = "not-yet-valid"
-		if now.After(c.NotAfter) {
-			g.window = "expired"
-		}
-	}
+	g.expired = now.After(c.NotAfter)
 	for _, e := range []time.Time{c.NotBefore, c.NotAfter} {
 		if d := now.Sub(e); d > -5*time.Minute && d < 5*time.Minute {
 			return g, true
@@ -710,11 +718,11 @@ func realJudge(r *run.R, caseID string, served *genCert, dc dialCase, completed 
 	rule := served.brokenRule()
 	switch {
 	case completed && !pinnedOK:
-		r.Violation("dial:completed-served-certificate-not-pinned", caseID, "dial to the real listener completed although the SHA-256 of the served certificate is not in the dialed address", detail)
+		raise(r, "dial:completed-served-certificate-not-pinned", caseID, "dial to the real listener completed although the SHA-256 of the served certificate is not in the dialed address", detail)
 	case completed && rule != "":
-		r.Violation("dial:completed-invalid-certificate:"+rule, caseID, "dial to the real listener completed although the served certificate breaks rule "+rule, detail)
+		raise(r, "dial:completed-invalid-certificate:"+rule, caseID, "dial to the real listener completed although the served certificate breaks rule "+rule, detail)
 	case completed && len(unconfirmed) > 0:
-		r.Violation("dial:completed-with-unconfirmed-hash", caseID, fmt.Sprintf("dial to the real listener completed although it does not confirm %v", unconfirmed), detail)
+		raise(r, "dial:completed-with-unconfirmed-hash", caseID, fmt.Sprintf("dial to the real listener completed although it does not confirm %v", unconfirmed), detail)
 	case completed:
 		r.Count("dial_completed_allowed", 1)
 		r.Count("dial_real_listener_completed", 1)
